@@ -7,12 +7,15 @@ package main
 // would have killed the process) is recorded by the scheduler's goroutine wrapper.
 
 import (
+	"encoding/hex"
 	"fmt"
 	"os"
 
 	"github.com/aldas/go-modbus-client/verifshim/vsched"
 	"verif/ev"
 	"verif/explore"
+	"verif/serverx"
+	"verif/spec"
 	"verif/srvx"
 )
 
@@ -69,11 +72,37 @@ func processScenarios(tier string) (out []Case2) {
 		sc2 := srvx.Scenario{Name: "P/leftover-after-panic", Callbacks: cb, Handler: "instant", Control: "none", HandlerByConn: map[int]string{1: "panic"},
 			Clients: [][]string{{"dial", "write:" + two, "quiesce", "close"}, {"quiesce", "quiesce", "dial", "send", "recv", "close"}}}
 		out = append(out, Case2{Scenario: sc2, Budget: d})
+		// an unsupported-function request that arrives in two pieces, followed by a valid request on the same connection:
+		// both replies must be addressed to their own requests (an exception sent before the body has arrived leaves the
+		// body's tail in front of the next request)
+		bad := "7001000000061" + "12b0e0100aa" // tid 7001, unit 0x11, function 0x2B + 4 body bytes  (12 bytes)
+		bad = "700100000006112b0e0100aa"
+		good := "700200000006110300100002"
+		for _, cut := range []int{8, 9, 10, 11} {
+			sc := srvx.Scenario{Name: fmt.Sprintf("P/split-unsupported-fc@%d", cut), Callbacks: cb, Handler: "instant", Control: "none",
+				Clients: [][]string{{"dial", "write:" + bad[:2*cut], "quiesce", "write:" + bad[2*cut:], "quiesce", "write:" + good, "recvall:2", "close"}},
+				Expect:  [][]string{{"7001000000031" + "1ab01", refHex(good)}}}
+			sc.Expect[0][0] = "70010000000311ab01"
+			out = append(out, Case2{Scenario: sc, Budget: 1})
+		}
 		// panic while shutdown is waiting for that very handler
 		sc := srvx.Scenario{Name: "P/panic-during-shutdown", Callbacks: cb, Handler: "sleep10", Control: "shutdown", ControlAt: 2, Clients: [][]string{{"dial", "send", "recv", "close"}}, PanicOnConn: 1}
 		out = append(out, Case2{Scenario: sc, Budget: d})
 	}
 	return out
+}
+
+// refHex: the reference device's reply to a request frame given in hex.
+func refHex(reqHex string) string {
+	b, err := hex.DecodeString(reqHex)
+	if err != nil {
+		panic(err)
+	}
+	rq, err := spec.DecodeReq(b, false)
+	if err != nil {
+		panic(err)
+	}
+	return hex.EncodeToString(serverx.NewDevice().Handle(rq).Frame(false))
 }
 
 func processLevel(tier string, res *ev.Result) {
